@@ -32,16 +32,16 @@ package rpm
 //@ func (r *RPM) Package(info *nfpm.Info, w io.Writer) (err error)
 //@   requires info != nil
 //@   requires files.SpecContentsNonNil(info.Contents)
-//@   requires !flag("failed") && !flag("clockRead") && !flag("envRead")
-//@   ensures [C06] loud: implies(err == nil, !flag("failed"))
-//@   ensures [C07] no-clock: implies(!old(info.MTime.IsZero()), !flag("clockRead"))
-//@   ensures [C07] no-env: implies(old(info.RPM.BuildHost) != "", !flag("envRead"))
+//@   requires !ghostFlag("failed") && !ghostFlag("clockRead") && !ghostFlag("envRead")
+//@   ensures [C06] loud: implies(err == nil, !ghostFlag("failed"))
+//@   ensures [C07] no-clock: implies(!old(info.MTime.IsZero()), !ghostFlag("clockRead"))
+//@   ensures [C07] no-env: implies(old(info.RPM.BuildHost) != "", !ghostFlag("envRead"))
 //@   modifies [C11 C12] &info.Arch, &info.Release, &info.Contents, &info.RPM.Compression
 //
 //@ inline func createFilesInsideRPM(info *nfpm.Info, rpm *rpmpack.RPM) (err error)
 //@   loop 0
-//@     invariant [C06] no-failure-so-far: !flag("failed")
-//@     invariant [C07] no-clock-so-far: implies(!old(info.MTime.IsZero()), !flag("clockRead"))
+//@     invariant [C06] no-failure-so-far: !ghostFlag("failed")
+//@     invariant [C07] no-clock-so-far: implies(!old(info.MTime.IsZero()), !ghostFlag("clockRead"))
 //@     invariant [C11 C12] plan-still-fresh: nfpm.SpecPlanOK(info.Contents, !old(info.MTime.IsZero()))
 //
 //@ inline func toRelation(items []string) (rel rpmpack.Relations, err error)
@@ -50,7 +50,7 @@ package rpm
 //
 //@ inline func addChangeLog(info *nfpm.Info, rpm *rpmpack.RPM) (err error)
 //@   loop 0
-//@     invariant [C06] no-failure-so-far: !flag("failed")
+//@     invariant [C06] no-failure-so-far: !ghostFlag("failed")
 //
 //@ import "github.com/goreleaser/nfpm/v2/files"
 //
@@ -106,7 +106,7 @@ package rpm
 //@   ensures [C02] description: implies(err == nil, meta.Description == old(info.Description) && meta.Summary == nzs(old(info.RPM.Summary), firstLine(old(info.Description))))
 //@   ensures [C02 C07] buildhost: implies(err == nil && old(info.RPM.BuildHost) != "", meta.BuildHost == old(info.RPM.BuildHost))
 //@   ensures [C07] buildtime: implies(err == nil && !old(info.MTime.IsZero()), meta.BuildTime == old(info.MTime))
-//@   ensures [C07] no-clock: implies(!old(info.MTime.IsZero()), flag("clockRead") == old(flag("clockRead")))
-//@   ensures [C07] no-env: implies(old(info.RPM.BuildHost) != "", flag("envRead") == old(flag("envRead")))
+//@   ensures [C07] no-clock: implies(!old(info.MTime.IsZero()), ghostFlag("clockRead") == old(ghostFlag("clockRead")))
+//@   ensures [C07] no-env: implies(old(info.RPM.BuildHost) != "", ghostFlag("envRead") == old(ghostFlag("envRead")))
 //@   ensures [C17] compressor-default: implies(err == nil, meta.Compressor == nzs(old(info.RPM.Compression), "gzip:-1"))
 //@   modifies [C11 C12] &info.RPM.Compression, flag("envRead"), flag("clockRead")
